@@ -44,6 +44,9 @@ class C16(Prop):
         n = rng.choice([2, 3, 5, 8, 20, 60, 400 if tier == "thorough" else 120])
         intraday = rng.random() < 0.35
         times, t = [], T0 + rng.randint(0, 500) * DAY
+        if intraday:
+            # any time of day for the first observation (the elapsed whole days then differ from the date difference)
+            t += rng.choice([0, 9, 13, 16, 22]) * 3600 * 1_000_000 + rng.choice([0, 30]) * 60 * 1_000_000
         for i in range(n):
             times.append(t)
             if intraday:
